@@ -66,6 +66,7 @@ fn main() {
           ctx.saved_cases($m::subs());
           let meta = std::thread::scope(|sc| {
             sc.spawn(|| ctx.profile_child());
+            sc.spawn(|| ctx.env_children());
             $m::run(&ctx)
           });
           let out = engine::finish(ctx, meta);
